@@ -1,5 +1,226 @@
 import Driver.Util
+import Driver.C04
+import KavaVerif.Model.Cdp
+/-!
+  C05 driver.
+
+  `c05.ratio` — pure-function tie of formulation (a) and of the two index-ratio routines:
+     c cf prin fees dcf price L "=>" cr gateUser gateLiq c2d c2dBulk
+     (cr = mantissa of CalculateCollateralizationRatio or "panic"; gateUser = ValidateCollateralizationRatio
+      accepted; gateLiq = ValidateLiquidation accepted; c2d = CalculateCollateralToDebtRatio mantissa;
+      c2dBulk = calculateCollateralRatio mantissa)
+  `c05.block` — tie of formulation (b) on the real keeper: a single CDP (c, cf, debt) at liquidation price
+     `price` and ratio `L`, one `LiquidateCdps` pass:   c cf debt dcf price L "=>" seized
+  `c05.op` — same case lines as `c04.op` (see Driver/C04.lean); the model comparison is repeated and the
+     C05 predicates are evaluated on the implementation's own pre/post observations.
+-/
 namespace Drv.C05
+open KV KV.Cdp Drv.C04
+
+/-- `CR − L` is within the proved rounding bound of `C05_block_sound_partial` -/
+def withinEps (cr L price : Int) : Bool :=
+  let M := 2 * price * P * P - L * P - 2 * L
+  decide (0 < M) && decide ((cr - 2 - L) * M < L * L * (P + 2))
+
+def gapTag (cr L price : Int) : String :=
+  if withinEps cr L price then "at-ratio-within-eps" else "above-ratio"
+
+def handleRatio : Handler
+  | [c, cf, prin, fees, dcf, price, L, _, cr, gU, gL, k1, k2] =>
+    match int? c, nat? cf, int? prin, int? fees, nat? dcf, int? price, int? L, bool? gU, bool? gL, int? k1, int? k2 with
+    | some c, some cf, some prin, some fees, some dcf, some price, some L, some gU, some gL, some k1, some k2 =>
+      let m := collRatio c cf prin fees dcf ⟨price⟩
+      let ms := match m with | some r => toString r.m | none => "panic"
+      if ms != cr then mismatch "collateralizationRatio" ms cr
+      else
+        let k := c2d c cf (prin + fees) dcf
+        let kb := c2dBulk c cf (prin + fees) dcf
+        if k.m != k1 then mismatch "collateralToDebtRatio" (toString k.m) (toString k1)
+        else if kb.m != k2 then mismatch "calculateCollateralRatio" (toString kb.m) (toString k2)
+        else
+        match m with
+        | none => "ok"
+        | some r =>
+          -- model gates
+          if gU != decide (¬ r.m < L) then mismatch "userGate" (showBool (decide (¬ r.m < L))) (showBool gU)
+          else if gL != decide (r.m < L) then mismatch "keeperGate" (showBool (decide (r.m < L))) (showBool gL)
+          -- predicates on the implementation's own numbers
+          else match int? cr with
+            | some icr =>
+              if gU && icr < L then predfail "C05_user_gate" "accepted-below-ratio"
+              else if gL && icr ≥ L then predfail "C05_keeper_sound" (gapTag icr L price)
+              else if k1 != k2 then predfail "C04_ratio_index_exact" "helper-and-bulk-ratio-differ"
+              else "ok"
+            | none => "ok"
+    | _, _, _, _, _, _, _, _, _, _, _ => badInput "parse"
+  | _ => badInput "arity"
+
+def handleBlock : Handler
+  | [c, cf, debt, dcf, price, L, _, seized] =>
+    match int? c, nat? cf, int? debt, nat? dcf, int? price, int? L, bool? seized with
+    | some c, some cf, some debt, some dcf, some price, some L, some seized =>
+      let key := sortKey (c2d c cf debt dcf)
+      let m := blockSelects key ⟨price⟩ ⟨L⟩
+      if m != seized then mismatch "blockSelects" (showBool m) (showBool seized)
+      else if seized then
+        match collRatio c cf debt 0 dcf ⟨price⟩ with
+        | some r => if r.m ≥ L then predfail "C05_block_sound" (gapTag r.m L price) else "ok"
+        | none => "ok"
+      else "ok"
+    | _, _, _, _, _, _, _ => badInput "parse"
+  | _ => badInput "arity"
+
+/-- debt of a CDP including the interest accrued up to the global factor of state `g` -/
+def syncedDebt (g : St) (c : Cdp) : Int := c.prin + c.fees + (newInterest g c).getD 0
+
+def crOf (u : U) (c : Cdp) (coll debt : Int) (price : Option Dec) : Option Dec :=
+  match price with
+  | none => none
+  | some p => collRatio coll (cfOf u.E c.ty) debt 0 u.E.P.debtCf p
+
+def absI (x : Int) : Int := if x < 0 then -x else x
+
+def isSynced (post : St) (c : Cdp) : Bool :=
+  (newInterest post c).getD 0 == 0
+
+/-- C05 predicates on the implementation's observations; `none` = all hold -/
+def preds (u : U) (kind : String) (args : List Int) (pre post : Obs) (tol : List Int) : Option (String × String) :=
+  let E := u.E
+  let sPre := stOf pre
+  let sPost := stOf post
+  let cpOf := fun (ty : Nat) => E.P.colls[ty]?
+  let gone := pre.cdps.filter (fun e => (post.cdps.lookup e.1).isNone)
+  -- (1) user gate + feed gate
+  let userPart : Option (String × String) :=
+    match kind, args with
+    | "create", [_, o, ty, _, _, _, _] | "draw", [_, o, ty, _, _] | "withdraw", [_, o, _, ty, _, _] | "deposit", [_, o, _, ty, _, _] =>
+      match cpOf ty.toNat with
+      | none => some ("C05_user_gate", "accepted-unknown-type")
+      | some cp =>
+        let down :=
+          if sPre.status cp.spot == false then some "spot-flag-down"
+          else if sPre.status cp.liq == false then some "liquidation-flag-down"
+          else if (sPre.price cp.spot).isNone then some "spot-price-missing"
+          else if (sPre.price cp.liq).isNone then some "liquidation-price-missing"
+          else none
+        match down with
+        | some why => some ("C05_feed_gate", s!"{kind}-accepted-{why}")
+        | none =>
+          if kind == "deposit" then none else
+          match post.cdps.find? (fun e => e.2.owner == o.toNat && e.2.ty == ty.toNat) with
+          | none => some ("C05_user_gate", "cdp-missing-after-accepted-action")
+          | some (_, c) =>
+            match crOf u c c.coll (c.prin + c.fees) (sPre.price cp.spot) with
+            | none => some ("C05_user_gate", "ratio-undefined")
+            | some r => if r.m < cp.liqRatio.m then some ("C05_user_gate", s!"below-ratio-after-{kind}") else none
+    | _, _ => none
+  if userPart.isSome then userPart else
+  -- (2) keeper liquidation only below the ratio
+  let keeperPart : Option (String × String) :=
+    match kind, args with
+    | "liquidate", [_, _, o, ty] =>
+      match cpOf ty.toNat, pre.cdps.find? (fun e => e.2.owner == o.toNat && e.2.ty == ty.toNat) with
+      | some cp, some (_, c) =>
+        match crOf u c c.coll (syncedDebt sPre c) (sPre.price cp.liq) with
+        | none => some ("C05_keeper_sound", "no-liquidation-price")
+        | some r =>
+          if r.m ≥ cp.liqRatio.m then
+            some ("C05_keeper_sound", gapTag r.m cp.liqRatio.m ((sPre.price cp.liq).getD Dec.zero).m)
+          else none
+      | _, _ => some ("C05_keeper_sound", "no-cdp")
+    | _, _ => none
+  if keeperPart.isSome then keeperPart else
+  -- (3) block liquidation
+  let gAfter : St := { sPre with ifac := sPost.ifac }
+  let blockSound : Option (String × String) :=
+    if kind != "begin" then none else
+    gone.findSome? (fun e =>
+      let c := e.2
+      match cpOf c.ty with
+      | none => some ("C05_block_sound", "unknown-type")
+      | some cp =>
+        match crOf u c c.coll (syncedDebt gAfter c) (sPre.price cp.liq) with
+        | none => some ("C05_block_sound", "seized-without-liquidation-price")
+        | some r =>
+          if r.m ≥ cp.liqRatio.m then
+            some ("C05_block_sound", gapTag r.m cp.liqRatio.m ((sPre.price cp.liq).getD Dec.zero).m)
+          else none)
+  if blockSound.isSome then blockSound else
+  let blockComplete : Option (String × String) :=
+    match kind, args with
+    | "begin", _ :: skip :: _ =>
+      if skip != 0 then none else
+      (List.range E.P.colls.length).findSome? (fun ty =>
+        match cpOf ty with
+        | none => none
+        | some cp =>
+          match sPre.price cp.spot, sPre.price cp.liq with
+          | some _, some pl =>
+            let K := sortKey (normRatio pl cp.liqRatio)
+            let goneT := gone.filter (fun e => e.2.ty == ty)
+            let cnt : Nat := if cp.checkCount ≤ 1 then 1 else cp.checkCount.toNat
+            let survivorsBelow := post.idx.filter (fun e => e.1 == ty && e.2.1 < K)
+            if !survivorsBelow.isEmpty && goneT.length < cnt then some ("C05_block_complete", "index-entry-below-norm-survived")
+            else
+              -- lowest first: every seized CDP sat (after its synchronisation) below every surviving entry
+              let seizedKeys := goneT.map (fun e =>
+                (ty, sortKey (c2d e.2.coll cp.cf (syncedDebt gAfter e.2) E.P.debtCf), e.1))
+              if seizedKeys.any (fun k => post.idx.any (fun v => v.1 == ty && eLt v k)) then
+                some ("C05_block_complete", "not-lowest-first")
+              else
+                -- true ratio (synchronised CDPs only): below L by more than the rounding bound ⇒ seized
+                let missed := post.cdps.any (fun e =>
+                  e.2.ty == ty && isSynced sPost e.2 &&
+                  (match crOf u e.2 e.2.coll (e.2.prin + e.2.fees) (some pl) with
+                   | some r => decide (r.m < cp.liqRatio.m) && !withinEps (2 * cp.liqRatio.m - r.m) cp.liqRatio.m pl.m
+                   | none => false))
+                if missed && goneT.length < cnt then some ("C05_block_complete", "below-ratio-not-seized") else none
+          | _, _ => none)
+    | _, _ => none
+  if blockComplete.isSome then blockComplete else
+  -- (4) a seizure removes the whole position; its collateral (minus keeper reward) and its debt enter auctions
+  if gone.isEmpty || kind == "repay" then none else
+  if gone.any (fun e => post.deps.any (fun d => d.1 == e.1)) then some ("C05_seize_whole", "deposit-left") else
+  if gone.any (fun e => post.idx.any (fun x => x.2.2 == e.1)) then some ("C05_seize_whole", "index-entry-left") else
+  if gone.any (fun e => post.own.any (fun x => x.2.contains e.1)) then some ("C05_seize_whole", "owner-entry-left") else
+  let keeperAcct : Option Nat := match kind, args with | "liquidate", [_, k, _, _] => some k.toNat | _, _ => none
+  let collBad := (List.range u.nDen).any (fun d => d ≥ 2 &&
+    (let seizedColl := sumI ((gone.filter (fun e => denomOf E e.2.ty == d)).map (·.2.coll))
+     let reward := match keeperAcct with | some k => lookup3 post.bal k d - lookup3 pre.bal k d | none => 0
+     lookup3 post.bal 2 d - lookup3 pre.bal 2 d != seizedColl - reward || lookup3 post.bal 1 d != lookup3 pre.bal 1 d))
+  if collBad then some ("C05_seize_whole", "collateral-entering-auctions") else
+  -- debt: only when no debt auction can start in this history (threshold out of reach)
+  if E.P.debtThreshold < 100000000000000000000000000000 then none else
+  let g := if kind == "begin" then gAfter else sPre
+  let seizedDebt := sumI (gone.map (fun e => syncedDebt g e.2))
+  let entered := lookup3 post.bal 2 1 - lookup3 pre.bal 2 1
+  let ndeps := (pre.deps.filter (fun d => gone.any (fun e => e.1 == d.1))).length
+  if entered == seizedDebt then none
+  else if absI (entered - seizedDebt) ≤ ndeps + sumI tol then some ("C05_seize_whole", "debt-entering-auctions-off-by-rounding")
+  else some ("C05_seize_whole", "debt-entering-auctions")
+
+def handleOp : Handler
+  | [kind, params, pre, args, _, result, post, tol] =>
+    match parseU params, parseObs pre, ints? args, parseObs post, ints? tol with
+    | some u, some pre, some args, some post, some tol =>
+      match runOp u kind args (stOf pre) with
+      | none => badInput "op"
+      | some res =>
+        let cls := resClass res
+        if cls != result then mismatch "result" cls result
+        else
+          let cmp := match res with
+            | .ok s' => cmpObs (obsOf u s') post
+            | _ => "ok"
+          if cmp != "ok" then cmp else
+          if result != "ok" then "ok" else
+          match preds u kind args pre post tol with
+          | some (name, tag) => predfail name tag
+          | none => "ok"
+    | _, _, _, _, _ => badInput "parse"
+  | _ => badInput "arity"
+
 /-- handlers of property C05: (command name, handler) -/
-def handlers : List (String × Handler) := []
+def handlers : List (String × Handler) :=
+  [("c05.ratio", handleRatio), ("c05.block", handleBlock), ("c05.op", handleOp)]
 end Drv.C05
